@@ -687,21 +687,21 @@ func deleteInPlace(s []*pb.AddrBookRecord_AddrEntry, addrs []ma.Multiaddr) []*pb
 		return s
 	}
 	survived := len(s)
-Outer:
-	for i, addr := range s {
+	for i := 0; i < survived; {
+		matched := false
 		for _, del := range addrs {
-			if !bytes.Equal(del.Bytes(), addr.Addr) {
-				continue
+			if bytes.Equal(del.Bytes(), s[i].Addr) {
+				matched = true
+				break
 			}
-			survived--
-			// if there are no survivors, bail out
-			if survived == 0 {
-				break Outer
-			}
-			s[i] = s[survived]
-			// we've already dealt with s[i], move to the next
-			continue Outer
 		}
+		if !matched {
+			i++
+			continue
+		}
+		survived--
+		// the element moved into position i has not been examined yet
+		s[i] = s[survived]
 	}
 	return s[:survived]
 }
